@@ -20,5 +20,5 @@ CFG = dict(
                  "shuffled work ids pairwise distinct (store holds one result per work id; ShuffleString injective)"],
     modelled="AddFromStagingHook (orderResults, addByPercentageExceeded), AddLogProposalsHook / AddConditionalProposalsHook (filter, keyed shuffle, cap), "
              "AddBlockHistoryHook; the stores, coordinator and flows are exercised, their models belong to C06/C07/C10/C11",
-    partial="checker K08 is not proved sound in Coq (it is a direct boolean transcription of the property clauses); the theorems are about the model, tied by equality with the implementation on every case",
+    partial="the Go scheduler is not modelled: the block-history race part (TestC08HistRace) samples real interleavings",
 )
